@@ -3,6 +3,7 @@ package props
 import (
 	"go/token"
 	"sort"
+	"strings"
 
 	"golang.org/x/tools/go/ssa"
 
@@ -258,4 +259,238 @@ func certainlyNonNil(v ssa.Value) bool {
 		}
 	}
 	return false
+}
+
+// ---- predicates over one string
+
+// strPred is what decideStringPred finds out about a func(string) bool whose result depends on its argument only
+// through comparisons with constants, lookups in constant tables and strings.HasPrefix with constant prefixes. Such
+// a predicate cannot tell apart two strings that agree on all of those tests, so following its branches once per
+// class of strings decides it for every string. Nothing is executed; any other dependence leaves it undecided.
+type strPred struct {
+	TrueFor  []string        // the constants it mentions for which it holds
+	FalseFor []string        // the constants it mentions for which it does not
+	Prefix   map[string]bool // per constant prefix p it tests: does it hold for a string that starts with p and is none of the constants
+	Other    bool            // does it hold for a string that is none of the constants and has none of the prefixes
+}
+
+// constBoolTable: v can only be a map built from constant string keys and constant boolean values - a literal in
+// this function or the result of a repository function that returns such a literal.
+func constBoolTable(g *ssa.Function, v ssa.Value) (map[string]bool, bool) {
+	or := queryOrigins(g, v)
+	if len(or) != 1 {
+		return nil, false
+	}
+	var mk *ssa.MakeMap
+	var host *ssa.Function
+	for o := range or {
+		switch x := o.(type) {
+		case *ssa.MakeMap:
+			mk, host = x, x.Parent()
+		case *ssa.Call:
+			callee := x.Call.StaticCallee()
+			if callee == nil || len(callee.Blocks) == 0 {
+				return nil, false
+			}
+			ex := an.Exits(callee)
+			if len(ex) != 1 || len(ex[0].Vals) != 1 {
+				return nil, false
+			}
+			m, ok := an.Strip(ex[0].Vals[0], true).(*ssa.MakeMap)
+			if !ok {
+				return nil, false
+			}
+			mk, host = m, callee
+		}
+	}
+	if mk == nil || mk.Referrers() == nil {
+		return nil, false
+	}
+	out := map[string]bool{}
+	for _, ref := range *mk.Referrers() {
+		switch r := ref.(type) {
+		case *ssa.MapUpdate:
+			k, ok1 := an.ConstString(r.Key)
+			b, ok2 := an.ConstBool(r.Value)
+			if !ok1 || !ok2 || r.Map != ssa.Value(mk) {
+				return nil, false
+			}
+			out[k] = b
+		case *ssa.Return, *ssa.DebugRef, *ssa.Lookup, *ssa.Store, *ssa.MakeClosure, *ssa.Phi:
+		default:
+			_ = host
+			return nil, false
+		}
+	}
+	return out, true
+}
+
+func decideStringPred(f *ssa.Function) (strPred, bool) {
+	var sp strPred
+	if f == nil || len(f.Params) != 1 || len(f.Blocks) == 0 {
+		return sp, false
+	}
+	key := f.Params[0]
+	consts := map[string]bool{}
+	prefixes := map[string]bool{}
+	tables := map[*ssa.Lookup]map[string]bool{}
+	ok := true
+	isKey := func(v ssa.Value) bool { return an.Strip(v, true) == ssa.Value(key) }
+	an.AllInstrs(f, func(in ssa.Instruction) {
+		switch x := in.(type) {
+		case *ssa.BinOp:
+			if x.Op == token.EQL || x.Op == token.NEQ {
+				if s, k := an.ConstString(x.Y); k && isKey(x.X) {
+					consts[s] = true
+				} else if s, k := an.ConstString(x.X); k && isKey(x.Y) {
+					consts[s] = true
+				}
+			}
+		case *ssa.Lookup:
+			if !isKey(x.Index) || x.CommaOk {
+				ok = false
+				return
+			}
+			t, k := constBoolTable(f, x.X)
+			if !k {
+				ok = false
+				return
+			}
+			tables[x] = t
+			for s := range t {
+				consts[s] = true
+			}
+		case ssa.CallInstruction:
+			if an.Callee(x) == "strings.HasPrefix" {
+				if s, k := an.ConstString(x.Common().Args[1]); k && isKey(x.Common().Args[0]) {
+					prefixes[s] = true
+					return
+				}
+			}
+			ok = false
+		}
+	})
+	if !ok || len(consts)+len(prefixes) > 64 {
+		return sp, false
+	}
+	// the walk under one representative string
+	eval := func(rep string) (bool, bool) {
+		phiVal := map[*ssa.Phi]ssa.Value{}
+		var boolOf func(v ssa.Value, depth int) (bool, bool)
+		boolOf = func(v ssa.Value, depth int) (bool, bool) {
+			if depth > 32 {
+				return false, false
+			}
+			if b, k := an.ConstBool(v); k {
+				return b, true
+			}
+			switch x := v.(type) {
+			case *ssa.Phi:
+				if w, has := phiVal[x]; has {
+					return boolOf(w, depth+1)
+				}
+			case *ssa.UnOp:
+				if x.Op == token.NOT {
+					b, k := boolOf(x.X, depth+1)
+					return !b, k
+				}
+			case *ssa.BinOp:
+				if x.Op == token.EQL || x.Op == token.NEQ {
+					s, k := an.ConstString(x.Y)
+					other := x.X
+					if !k {
+						s, k = an.ConstString(x.X)
+						other = x.Y
+					}
+					if k && isKey(other) {
+						return (s == rep) == (x.Op == token.EQL), true
+					}
+					bx, k1 := boolOf(x.X, depth+1)
+					by, k2 := boolOf(x.Y, depth+1)
+					if k1 && k2 {
+						return (bx == by) == (x.Op == token.EQL), true
+					}
+				}
+			case *ssa.Lookup:
+				if t, has := tables[x]; has {
+					return t[rep], true
+				}
+			case *ssa.Call:
+				if an.Callee(x) == "strings.HasPrefix" {
+					if s, k := an.ConstString(x.Call.Args[1]); k && isKey(x.Call.Args[0]) {
+						return strings.HasPrefix(rep, s), true
+					}
+				}
+			}
+			return false, false
+		}
+		b := f.Blocks[0]
+		var prev *ssa.BasicBlock
+		for steps := 0; steps < 256; steps++ {
+			for _, in := range b.Instrs {
+				if p, isPhi := in.(*ssa.Phi); isPhi && prev != nil {
+					for i, pb := range b.Preds {
+						if pb == prev {
+							phiVal[p] = p.Edges[i]
+						}
+					}
+				}
+			}
+			switch t := b.Instrs[len(b.Instrs)-1].(type) {
+			case *ssa.Return:
+				if len(t.Results) != 1 {
+					return false, false
+				}
+				return boolOf(t.Results[0], 0)
+			case *ssa.Jump:
+				prev, b = b, b.Succs[0]
+			case *ssa.If:
+				c, k := boolOf(t.Cond, 0)
+				if !k {
+					return false, false
+				}
+				prev = b
+				if c {
+					b = b.Succs[0]
+				} else {
+					b = b.Succs[1]
+				}
+			default:
+				return false, false
+			}
+		}
+		return false, false
+	}
+	var cs []string
+	for s := range consts {
+		cs = append(cs, s)
+	}
+	sort.Strings(cs)
+	for _, s := range cs {
+		b, k := eval(s)
+		if !k {
+			return sp, false
+		}
+		if b {
+			sp.TrueFor = append(sp.TrueFor, s)
+		} else {
+			sp.FalseFor = append(sp.FalseFor, s)
+		}
+	}
+	sp.Prefix = map[string]bool{}
+	for p := range prefixes {
+		// a string with this prefix that is none of the constants (and has no longer tested prefix)
+		rep := p + "\x00\x00"
+		b, k := eval(rep)
+		if !k {
+			return sp, false
+		}
+		sp.Prefix[p] = b
+	}
+	b, k := eval("\x00\x00")
+	if !k {
+		return sp, false
+	}
+	sp.Other = b
+	return sp, true
 }
